@@ -92,7 +92,7 @@ class C01(CheckBase):
                            'WS-Discovery (recording stub)']}
     assumptions = ['delivery is fault-free and in emission order (C06 covers faults)',
                    'role providers of the tutorial are not installed (pure MDIB mirror)']
-    expected_probes = ['rounds', 'commits', 'descr_ops', 'context_ops']
+    expected_probes = ['rounds', 'commits', 'descr_ops', 'context_ops', 'init_under_load']
     max_steps = 6_000_000
 
     def budget(self, tier):
@@ -123,7 +123,7 @@ class C01(CheckBase):
                 op['round'] = i
                 ops.append(op)
         return {'sched': draw_sched_config(rng), 'world': cfg, 'writers': writers, 'ops': ops,
-                'location': rng.random() < 0.5}
+                'location': rng.random() < 0.5, 'init_race': rng.random() < 0.3}
 
     def body(self, ctx):
         plan = ctx.plan
@@ -134,13 +134,37 @@ class C01(CheckBase):
             from sdc11073.location import SdcLocation
             with worldb.node(worldb.PROVIDER_IP):
                 w.provider.set_location(SdcLocation(fac='f1', poc='p1', bed='b&1', bldng='h/1'), publish_now=False)
-        c, cm = w.start_consumer(0)
-        rec = NotifyRecorder(cm, s)
-        hist = w.hist
-        self._compare(ctx, w, cm, 'initial', None)
         rounds = {}
         for op in plan['ops']:
             rounds.setdefault(op.get('round', op['id']), []).append(op)
+        if plan.get('init_race') and len(rounds) > 1:
+            # the consumer initialises its MDIB while the provider is committing; a handler thread that has just released
+            # the MDIB lock may be stalled (the window between collecting an answer and labelling / sending it)
+            ctx.probe('init_under_load')
+            batch0 = rounds.pop(sorted(rounds)[0])
+            s.stall_after(w.mdib.mdib_lock, 0.3, (0.002, 0.008))
+            box = []
+            th = threading.Thread(target=lambda: box.append(w.start_consumer(0)), name='init_mdib')
+            th.start()
+            with worldb.node(worldb.PROVIDER_IP):
+                for op in batch0:
+                    s.reseed('op', op['id'])
+                    try:
+                        W.apply_op(w.mdib, op)
+                    except W.OpRejected:
+                        ctx.probe('rejected')
+                    s.sleep(0.003)
+            th.join()
+            s.stall_after_locks.clear()
+            if not box:
+                raise RuntimeError(f'consumer start failed: {s.escaped[:1]}')
+            c, cm = box[0]
+            w.settle(5.0)
+        else:
+            c, cm = w.start_consumer(0)
+        rec = NotifyRecorder(cm, s)
+        hist = w.hist
+        self._compare(ctx, w, cm, 'initial', None)
         for rnd in sorted(rounds):
             batch = rounds[rnd]
             v_before = w.mdib.mdib_version
